@@ -30,7 +30,8 @@ class Family:
     logic: str | None = None
     timeout_ms: int = 20000
     round_identity: bool = False
-    split_depth: int = 0       # >0: split each case's decision tree into sub-trees of this prefix depth
+    split_depth: int = 0       # (unused, kept for harness compatibility)
+    split_paths: int = 40      # work splitting: a task explores this many paths, then hands its unexplored sub-trees to the pool
     case_cap_s: float = 3000.0  # safety cap per case (hit => inconclusive, never success)
     validate_every: int = 1    # differential validation of every k-th path
     max_validate: int = 400
@@ -95,7 +96,7 @@ def _known_regions(prop):
     return {e["region"]: e for e in kf.get("findings", []) if e["property"] == prop}
 
 
-def run_concrete(fam, case, env, mode="concrete"):
+def run_concrete(fam, case, env, mode="concrete", exact=False):
     """Run the harness body on concrete inputs.  mode 'concrete': plain floats, shims off;
     'lift': constant SymReals through the engine, shims on."""
     from . import bind, core, uf
@@ -107,6 +108,8 @@ def run_concrete(fam, case, env, mode="concrete"):
         bind.install(fam.shim_modules)
         ex = core.Explorer(timeout_ms=fam.timeout_ms, round_identity=True)
         ex.concrete_uf = True
+        ex.exact_replay = exact
+        ex.lift_mode = True
         core.EX = ex
         uf.reset_path()
         ctx = core.LiftCtx(env)
@@ -148,8 +151,6 @@ def _explore_task(args):
     ex = core.Explorer(timeout_ms=fam.timeout_ms, logic=fam.logic, round_identity=fam.round_identity)
     ex.concrete_uf = fam.concrete_uf
     ex.path_hooks.append(uf.reset_path)
-    if enumerate_prefixes:
-        ex.prefix_limit = fam.split_depth
     core.EX = ex
     res = {"case": case, "paths": 0, "candidates": [], "unknown": 0, "checked": 0, "validated": 0,
            "validation_mismatch": [], "snap_miss": 0, "tags": {}, "samples": [], "errors": [],
@@ -158,6 +159,8 @@ def _explore_task(args):
 
     def path_fn(ex):
         ctx = core.SymCtx(ex, known_regions=known)
+        if fam.snap == "micro":
+            ctx.grid_scale = 64     # k/64 is exactly representable AND on the 1e-6 lattice
         status = "ok"
         try:
             fam.body(ctx, case)
@@ -192,11 +195,13 @@ def _explore_task(args):
                                            "decisions": len(ex.stack), "tags": sorted(ctx.tags),
                                            "notes": {k: _note_eval(ctx, v, env) for k, v in list(ctx.notes.items())[:12]}})
                 if want_val:
-                    val_jobs.append((env, sorted(ctx.tags), bool(ctx.candidates)))
+                    genv = ctx.grid_inputs(64) if fam.snap == "micro" else snap_inputs(fam, env)
+                    val_jobs.append((env, genv, bool(ctx.candidates)))
         return None
 
     try:
-        ex.run_all(path_fn, prefix=prefix, deadline=t0 + fam.case_cap_s)
+        ex.run_all(path_fn, prefix=prefix, deadline=t0 + fam.case_cap_s,
+                   path_budget=(fam.split_paths if fam.split_paths > 0 else None))
     except Exception:
         res["errors"].append(traceback.format_exc(limit=8)[-2000:])
     finally:
@@ -210,14 +215,18 @@ def _explore_task(args):
     res["unknown"] += ex.unknowns
     res["nonlinear"] = ex.nonlinear
     res["timed_out"] = ex.timed_out
-    res["prefixes"] = ex.prefixes if enumerate_prefixes else []
+    res["prefixes"] = ex.prefixes
     # differential validation: same inputs through (a) engine with constants, (b) plain floats
-    for env, tags, had_cand in val_jobs:
-        envf = snap_inputs(fam, env)
+    for env, envf, had_cand in val_jobs:
+        if envf is not None:
+            envf = {k: (float(v) if isinstance(v, Fraction) else v) for k, v in envf.items()}
         try:
-            x = run_concrete(fam, case, env, "lift")        # exact rational model: same path as the symbolic run
-            a = run_concrete(fam, case, envf, "lift")       # snapped floats through the engine
-            b = run_concrete(fam, case, envf, "concrete")   # snapped floats through the unmodified code
+            x = run_concrete(fam, case, env, "lift", exact=True)        # exact rational model: same path as the symbolic run
+            if envf is None:            # no exactly-representable model on this path: engine-vs-float comparison skipped
+                a = b = {"assumption_failed": True, "failed": [], "exception": None, "notes": {}}
+            else:
+                a = run_concrete(fam, case, envf, "lift")       # exactly representable inputs through the engine
+                b = run_concrete(fam, case, envf, "concrete")   # the same inputs through the unmodified float code
         except Exception:
             res["errors"].append("validation crashed: " + traceback.format_exc(limit=6)[-1500:])
             continue
@@ -322,6 +331,10 @@ def run_property(prop, tier, seed, jobs=None, only_family=None):
                   cases=0, nonlinear=0, snap_miss=0)
     samples = []
     ctxmp = mp.get_context("fork")
+    try:
+        bind.load()          # import OpenPinch once in the parent; forked workers inherit the modules
+    except Exception as e:   # a broken tree is reported by the workers per case
+        print("WARNING: preloading OpenPinch failed:", repr(e))
     for fam in mod.FAMILIES:
         if only_family and fam.name != only_family:
             continue
@@ -359,6 +372,8 @@ def run_property(prop, tier, seed, jobs=None, only_family=None):
                         continue
                     for k in fam_tot:
                         fam_tot[k] += r.get(k, 0)
+                    if os.environ.get("VERIF_DEBUG"):
+                        print(f"  [task] {fam.name} prefix={'yes' if a[3] else 'no'} paths={r['paths']} checks={r['checks']} tsolve={r['tsolve']:.1f} wall={r['wall']:.1f} nprefix={len(r['prefixes'])} case={str(r['case'])[:150]}", flush=True)
                     for t, n in r["tags"].items():
                         tags[t] = tags.get(t, 0) + n
                     for t, n in r["exceptions"].items():
